@@ -33,7 +33,7 @@ class World:
                        "inactive_level2", "refused_outside_region", "collective_left_early",
                        "rendezvous_send", "library_rates_distributed", "library_tensor_distributed",
                        "negative_length", "single_rank", "return_index_list", "return_index_array",
-                       "library_tensor_created_and_converted_at_different_levels"]
+                       "library_tensor_created_and_converted_at_different_levels", "same_list_object_distributed_again"]
     required_faults = ["stalled_rank", "start_skew"]
     components = {
         "real": ["quantarhei.core.parallel: DistributedConfiguration, start/close_parallel_region, block_distributed_range/list/array, "
@@ -81,7 +81,7 @@ class World:
                 n = rng.choice([0, 1, 2, 3, 5, 8, 13, 21, N, N + 1, max(0, N - 1), 2 * N])
                 collect = rng.random() < 0.4 and n >= N
                 phases.append({"op": "list", "n": n, "ri": collect or rng.random() < 0.5, "nest": nest, "red": red,
-                               "collect": collect})
+                               "collect": collect, "same_object": rng.random() < 0.5})
             elif r < 0.82:
                 n = rng.choice([0, 1, 2, 3, 5, 8, 13, 21, N, N + 1, max(0, N - 1), 2 * N])
                 phases.append({"op": "array", "n": n, "ri": rng.random() < 0.5, "nest": nest, "red": red})
@@ -150,6 +150,7 @@ class World:
 
         def rank_program(r):
             out = []
+            mylist = []          # this rank's own list object, refilled in place by the phases that ask for it
             if program["skew"]:
                 for _ in range(srng.randint(0, 3)):
                     sim.yield_point(r, "start skew")
@@ -170,7 +171,11 @@ class World:
                             acc += f_index(i)
                         rec["block"] = blk
                     elif kind == "list":
-                        dlist = [3 * j + 1 for j in range(ph["n"])]
+                        if ph.get("same_object"):
+                            mylist[:] = [3 * j + 1 for j in range(ph["n"])]      # same object, other length
+                            dlist = mylist
+                        else:
+                            dlist = [3 * j + 1 for j in range(ph["n"])]
                         got = block_distributed_list(dlist, return_index=ph["ri"])
                         acc = numpy.zeros((2, 3), dtype=numpy.int64)
                         blk = []
@@ -270,6 +275,7 @@ class World:
 
         # -------------------------------------------------- history oracle
         any_active = False
+        nsame = [0]
         for pi, ph in enumerate(phases):
             kind = ph["op"]
             recs = [results[r][pi] for r in range(N)]
@@ -303,6 +309,10 @@ class World:
                     start, stop = 0, ph["n"]
                     if ph["ri"]:
                         ctx.probe("return_index_" + kind)
+                    if kind == "list" and ph.get("same_object"):
+                        nsame[0] += 1
+                        if nsame[0] >= 2:
+                            ctx.probe("same_list_object_distributed_again")
                 full = list(range(start, stop))
                 ln = stop - start
                 if start != 0:
